@@ -450,7 +450,21 @@ impl Check for C12 {
             }
             // then hostile material
             for _ in 0..r.urange(1, 3) {
-                match r.below(8) {
+                match r.below(9) {
+                    8 => {
+                        // a valid Delete of the one existing file inside a frame that announces
+                        // surplus bytes: the request is complete only when the WHOLE frame has
+                        // arrived — an input that ends inside the surplus must change nothing
+                        let mut f = frame(&Request::Delete { path: "k1".into(), expected: Some(b3(&init_body(1))) });
+                        let pad = r.urange(8, 64);
+                        let len = u32::from_be_bytes([f[0], f[1], f[2], f[3]]) + pad as u32;
+                        f[..4].copy_from_slice(&len.to_be_bytes());
+                        stream.extend(f);
+                        stream.extend(std::iter::repeat(0u8).take(pad));
+                        if valid_prefix == 0 {
+                            valid_prefix = stream.len() as u32;
+                        }
+                    }
                     0 => {
                         let l = *r.pick(&[0u32, 1, (1 << 20) - 1, 1 << 20, (1 << 20) + 1, 1 << 24, 1 << 31, u32::MAX]);
                         stream.extend_from_slice(&l.to_be_bytes());
